@@ -55,6 +55,18 @@ def canon_arg(x, k, s):
     return "?" + re.sub(r"[^0-9A-Za-z]", "_", repr((x, k, s)))
 
 
+class MethodHolder:
+    """hands out a *bound method* as the worker (a plain method returning the coroutine, marked as a coroutine function, so
+    that a call with unsuitable arguments still raises at call time)"""
+
+    def __init__(self, f):
+        self.f = f
+
+    @inspect.markcoroutinefunction
+    def worker(self, *a, **kw):
+        return self.f(*a, **kw)
+
+
 class CallableObject(list):
     """a callback that is a callable *object* — and, being a list, not hashable"""
 
@@ -242,8 +254,10 @@ class ImplWorld:
         # every other worker function is handed to the pool as a `functools.partial` object: a coroutine function as far
         # as asyncio is concerned, but a callable without `__name__`
         ctx.nworkers = getattr(ctx, "nworkers", 0) + 1
-        if ctx.nworkers % 2 == 0:
+        if ctx.nworkers % 3 == 1:
             return functools.partial(worker)
+        if ctx.nworkers % 3 == 2:
+            return MethodHolder(worker).worker      # a bound method
         return worker
 
     def mkcb(self, ctx, kind, spec, hooks, holder):
